@@ -309,7 +309,7 @@ class C16(Sim):
         "failed_load_on_previously_activated_rule", "antecedent_good_consequent_bad", "reload_with_one_bad_rule_among_good",
         "torn_inside_token", "torn_inside_rule", "torn_inside_term_line", "torn_after_engine_line", "corrupted_document_accepted",
         "import_failure_in_second_rule_block", "parse_phase_rejection_atomic", "restored_engine_equals_fresh_twin",
-        "listed_error_in_stored_rule", "shipped_example_engine", "library_debug_mode",
+        "listed_error_in_stored_rule", "shipped_example_engine", "library_debug_mode", "rule_reloaded_after_variable_renamed_back",
     ]
 
     def prepare(self) -> None:
@@ -347,7 +347,9 @@ class C16(Sim):
                 else:
                     mut = {"generic": rng.choice(GENERIC), "seed": rng.randrange(1 << 30), "times": rng.choice([1, 1, 2])}
                 ops.append({"op": "fresh_rule", "b": bi, "r": ri, "mut": mut, "via": rng.choice(["create", "importer", "importer_block"])})
-            elif r < 0.47:
+            elif r < 0.44:
+                ops.append({"op": "rename_check", "b": bi, "r": ri, "pick": rng.randrange(8)})
+            elif r < 0.48:
                 ops.append({"op": "reload", "b": bi, "plain": rng.random() < 0.4})
             elif r < 0.52:
                 ops.append({"op": "restart"})
@@ -523,6 +525,50 @@ class C16(Sim):
                                 v = Violation("accepted_rule_cannot_be_evaluated", i, text=text, exception=type(ex).__name__, message=str(ex)[:120])
                 if v is None and all_rule_snaps(skip=(bi, ri)) != others:
                     v = Violation("loading_one_rule_changed_another", i, text=text)
+            elif k == "rename_check":
+                # the engine itself changes under a loaded rule: a variable the rule mentions is renamed (public attribute).
+                # The unchanged rule text now carries an *unknown name* and must not load; after renaming back it must.
+                bi = op["b"] % len(E.rule_blocks)
+                blk = E.rule_blocks[bi]
+                ri = op["r"] % len(blk.rules)
+                rule = blk.rules[ri]
+                if (bi, ri) in corrupted or cur_text[(bi, ri)] != orig_text[(bi, ri)] or not rule.is_loaded():
+                    continue
+                rspec = sp["blocks"][bi]["rules"][ri]
+                names = sorted(S.ast_vars(rspec["ant"]) | {c["var"] for c in rspec["con"]})
+                old_name = names[op["pick"] % len(names)]
+                var = next(v_ for v_ in E.variables if v_.name == old_name)
+                others = all_rule_snaps(skip=(bi, ri))
+                var.name = old_name + "_renamed"
+                st.hit("faults.engine_variable_renamed")
+                exc = None
+                try:
+                    rule.load(E)
+                except BaseException as ex:  # noqa: BLE001
+                    if not isinstance(ex, Exception):
+                        raise
+                    exc = ex
+                finally:
+                    loaded_with_unknown_name = rule.is_loaded()
+                    var.name = old_name
+                emit(f"{i} rename_check b{bi}r{ri} {old_name} -> {type(exc).__name__ if exc else 'accepted'}")
+                sig.append("V" + ("r" if exc else "a"))
+                if exc is None:
+                    v = Violation("rule_with_listed_error_accepted", i, error_class="unknown_name", text=cur_text[(bi, ri)],
+                                  how=f"variable {old_name} renamed on the engine before the load")
+                elif classify(exc) == "internal":
+                    v = Violation("internal_error_on_rule_text", i, exception=type(exc).__name__, message=str(exc)[:160], text=cur_text[(bi, ri)])
+                elif loaded_with_unknown_name:
+                    v = Violation("rule_reports_loaded_after_failed_load", i, text=cur_text[(bi, ri)], via="rename")
+                else:
+                    try:
+                        rule.load(E)  # the name is back: the rule is valid again
+                        st.hit("probes.rule_reloaded_after_variable_renamed_back")
+                    except Exception:
+                        st.hit("outcomes.valid_rule_text_rejected")
+                        corrupted[(bi, ri)] = True
+                    if all_rule_snaps(skip=(bi, ri)) != others:
+                        v = Violation("loading_one_rule_changed_another", i, text=cur_text[(bi, ri)])
             elif k == "fresh_rule":
                 # other public entry points for rule text: Rule.create, FllImporter.rule, FllImporter.rule_block
                 bi = op["b"] % len(E.rule_blocks)
